@@ -714,6 +714,9 @@ fn construct(src: &str) -> &'static str {
     if lines.iter().any(|l| l.contains(", ") || l.ends_with(',')) && !has("\"") {
         return "empty-ascii-subscript";
     }
+    if has(";") && !has("\"") && !has("@;") {
+        return "unsplit-marker";
+    }
     if has("$$") {
         return "multiline-format-string";
     }
@@ -783,9 +786,7 @@ fn construct(src: &str) -> &'static str {
     if has("!") {
         return "macro";
     }
-    if has(";") {
-        return "flip-line";
-    }
+
     if src.chars().any(|c| c.is_ascii_digit()) && src.chars().any(|c| c == '¯' || c == '`') {
         return "negative-number";
     }
@@ -934,7 +935,18 @@ fn variant(r: &mut Rng, src: &str, ascii: usize, spacing: usize) -> Option<Strin
                 }
             }
             Token::Newline => {
+                // the ; unsplit marker at the end of this line or at the start of the next one
+                let code_line = !out.rsplit('\n').next().unwrap_or("").contains('#') && !out.rsplit('\n').next().unwrap_or("").trim().is_empty();
+                let next_is_code = toks.get(i + 1).is_some_and(|t| !matches!(t.value, Token::Newline | Token::Comment | Token::Spaces));
+                let mark = depth > 0 && code_line && next_is_code && r.below(500) < spacing;
+                let at_end = r.chance(1, 2);
+                if mark && at_end {
+                    out.push_str(*r.pick(&[" ;", ";"]));
+                }
                 out.push_str(text);
+                if mark && !at_end {
+                    out.push_str(*r.pick(&[";", "; "]));
+                }
                 if depth == 0 && r.below(300) < spacing {
                     out.push('\n');
                 }
@@ -1030,6 +1042,13 @@ impl<'a> PG<'a> {
     }
     fn num(&mut self) -> String {
         let r = &mut *self.r;
+        if r.chance(1, 8) {
+            // exponent signs, fractions with signs in either component, negative written ¯ or `
+            return (*r.pick(&[
+                "1e¯2", "1e`2", "1e-2", "2E3", "1.5e¯3", "1e¯2/3", "1e2/¯3", "¯1e¯2/3", "1/¯2", "¯1/¯2", "`1/`2", "3/`4", "π/¯2", "¯π/2", "1/¯π", "τ/4", "¯η", "1e¯2/3e¯1", "0.5/¯0.25", "¯∞", "1,000/¯8",
+            ]))
+            .into();
+        }
         match r.below(14) {
             0 => format!("¯{}", r.range(1, 9)),
             1 => format!("`{}", r.range(1, 9)),
@@ -1545,6 +1564,29 @@ fn gen_program(r: &mut Rng) -> (String, Vec<&'static str>) {
 
 /// hand-written seeds: earlier counterexamples and the constructs of the property's quantifier
 const SEEDS: &[&str] = &[
+    // number literals with exponent signs, fractions, signs in both components; lone negative subscripts
+    "1e¯2/3\n",
+    "1e`2/3 1e-2/3\n",
+    "1/¯2 ¯1/¯2 `1/`2 1/`2\n",
+    "1e¯2/¯3 ¯1e¯2/3e¯1\n",
+    "π/¯2 ¯π/2 1/¯π\n",
+    "1.5e¯3 2E¯2 1e+2\n",
+    "₋₅\n",
+    "₋₅ 3\n",
+    "+₋₅ 3\n",
+    "⊟₋₁ 1 2\n",
+    "[₋₂ ₃]\n",
+    // the ; unsplit marker
+    "X ← 3\nY ← 10\nYX ← 100\nF ← (\n  X ;\n  Y\n)\nF\nG ← (X\n  ;Y)\nG\n",
+    "X ← 3\nY ← 10\nF ← (\n  1\n  X ;\n  Y\n)\nF\n",
+    "(1\n 2 ;\n 3)\n",
+    "[1\n 2 ;\n 3]\n",
+    "(1;\n2)\n",
+    "(1\n;2)\n",
+    "(1\n; 2)\n",
+    "1 ;\n2\n",
+    "1\n2 ;\n3\n",
+    "⊙(\n+|\n×) 1 2 3\n",
     // multi-line layout: what still needs two passes after round 4 (C10-2, narrowed)
     "[\n4]",
     "({\nn})",
@@ -1819,6 +1861,42 @@ fn module_family() -> Vec<String> {
     out
 }
 
+/// the `;` unsplit marker: two lines joined into one (the later line first, outside arrays), in multi-line
+/// functions, top-level blocks and arrays; the marker at a line's end or start, with and without spaces,
+/// between identifiers, numbers, glyphs and strings (words that would lex as one if printed side by side)
+fn unsplit_family() -> Vec<String> {
+    let mut out = Vec::new();
+    let pre = "X ← 3\nY ← 10\nYX ← 100\nXY ← 200\n";
+    let words: [(&str, &str); 7] = [("X", "Y"), ("Y", "X"), ("1", "2"), ("X", "2"), ("+", "X"), ("\"a\"", "\"b\""), ("¯", "5")];
+    for (a, b) in words {
+        for (m1, m2) in [(" ;\n", ""), (";\n", ""), ("\n", ";"), ("\n", "; "), (" ;\n", " "), ("\n", "  ;")] {
+            // a marker at the end of the first line, of a later line, at the start of a line
+            let joined = format!("{a}{m1}{ind}{m2}{b}", ind = "  ");
+            out.push(format!("{pre}F ← (\n  {joined}\n)\nF\n"));
+            out.push(format!("{pre}F ← (\n  0\n  {joined}\n)\nF\n"));
+            out.push(format!("{pre}G ← ({a}{m1}  {m2}{b})\nG\n"));
+            out.push(format!("{pre}[{a}{m1} {m2}{b}]\n"));
+            out.push(format!("{pre}[0\n {a}{m1} {m2}{b}]\n"));
+            out.push(format!("{pre}{{{a}{m1} {m2}{b}\n 7}}\n"));
+            // top-level block
+            out.push(format!("{pre}{a}{m1}{m2}{b}\n"));
+            out.push(format!("{pre}0\n{a}{m1}{m2}{b}\n9\n"));
+            // inside a pack branch and a modifier's operand
+            out.push(format!("{pre}⊃(1|\n  {a}{m1}  {m2}{b})\n"));
+            out.push(format!("{pre}⊙(\n  {a}{m1}  {m2}{b}\n) 4\n"));
+        }
+    }
+    // three lines chained, flips inside one line, with comments
+    out.push(format!("{pre}F ← (\n  X ;\n  Y ;\n  1\n)\nF\n"));
+    out.push(format!("{pre}F ← (\n  X\n  ;Y\n  ;1\n)\nF\n"));
+    out.push(format!("{pre}F ← (X;Y)\nF\n"));
+    out.push(format!("{pre}F ← (X ; Y ; 1)\nF\n"));
+    out.push(format!("{pre}F ← (\n  X ; # c\n  Y\n)\nF\n"));
+    out.push(format!("{pre}F ← (\n  X ;\n  # c\n  Y\n)\nF\n"));
+    out.push(format!("{pre}(X;;Y)\n"));
+    out
+}
+
 fn sources(n: usize, seed: u64, quick: bool) -> Vec<Source> {
     let mut r = Rng::new(seed ^ 0x10);
     let files = corpus_files();
@@ -1830,8 +1908,14 @@ fn sources(n: usize, seed: u64, quick: bool) -> Vec<Source> {
     let fam = module_family();
     for (i, m) in fam.iter().enumerate() {
         // quick: every 3rd member, rotating with the seed (all of them in the thorough tier)
-        if !quick || (i as u64 + seed) % 3 == 0 {
+        if !quick || (i as u64 + seed) % 4 == 0 {
             out.push(Source { cat: "module-visibility", text: m.clone(), features: vec![] });
+        }
+    }
+    let fam = unsplit_family();
+    for (i, m) in fam.iter().enumerate() {
+        if !quick || (i as u64 + seed) % 5 == 0 {
+            out.push(Source { cat: "unsplit-marker", text: m.clone(), features: vec![] });
         }
     }
     for (_, t) in &files {
@@ -1843,7 +1927,7 @@ fn sources(n: usize, seed: u64, quick: bool) -> Vec<Source> {
         out.push(Source { cat: "corpus-chunk", text: c.clone(), features: vec![] });
     }
     // variants of corpus chunks: ASCII names, odd spacing
-    let nv = if quick { chunks.len() / 2 } else { chunks.len() * 3 };
+    let nv = if quick { chunks.len() / 3 } else { chunks.len() * 3 };
     for i in 0..nv {
         let c = &chunks[if quick { r.below(chunks.len()) } else { i % chunks.len() }];
         let (ascii, spacing, cat) = match i % 3 {
@@ -2471,8 +2555,110 @@ fn ctie(n: usize, seed: u64) {
         vec![MTok::Names(vec!['⇌', '¯']), MTok::Num(false, "5".into())],
     ];
     let mut fi = 0usize;
+    let mut unsplit_cases = 0usize;
     while emitted < n && tries < n * 30 {
         tries += 1;
+        // lines joined by the ; unsplit marker (Fmt.v unsplit_lines): every 6th case
+        if fi >= fixed.len() && tries % 6 == 0 {
+            let k = 2 + r.below(2);
+            let mut lines: Vec<Vec<MTok>> = Vec::new();
+            for _ in 0..k {
+                let mut g = TG { r: &mut r, glyphs: glyphs.clone(), names: names.clone(), toks: Vec::new(), first_is_glyph: false };
+                let len = 1 + g.r.below(3);
+                g.seq(0, len);
+                lines.push(g.toks);
+            }
+            let ctx = r.below(3); // 0 function, 1 array, 2 top level
+            let (open, close) = match ctx {
+                0 => ("(", ")"),
+                1 => (*r.pick(&["[", "{"]), ""),
+                _ => ("", ""),
+            };
+            let close = if ctx == 1 { if open == "[" { "]" } else { "}" } } else { close };
+            let mut src = String::from(open);
+            let mut first_end = false;
+            let mut ok = true;
+            // the words of each line as flip_unsplit_lines_impl leaves them: the first line is trimmed, a later
+            // line keeps the spaces between its words and a marker that was removed from its end or start
+            let mut model_lines: Vec<Vec<MTok>> = lines.clone();
+            for (i, l) in lines.iter().enumerate() {
+                let text = spell(&mut r, l, &names);
+                if relex_real(&text).as_ref() != Some(l) {
+                    ok = false;
+                }
+                // a macro with bangs at the end of its line has no operand there: the space of the join is not an
+                // operand's leading space (outside Fmt.v: modifiers' operands are not modelled)
+                if matches!(l.last(), Some(MTok::Upper(_, b)) if *b > 0) {
+                    ok = false;
+                }
+                if i > 0 {
+                    let at_end = r.chance(1, 2);
+                    if at_end {
+                        let sp = *r.pick(&[1usize, 0, 2]);
+                        src.push_str(&" ".repeat(sp));
+                        src.push(';');
+                        if i == 1 {
+                            first_end = true;
+                        } else if sp > 0 {
+                            model_lines[i - 1].push(MTok::Space(sp > 1));
+                        }
+                        src.push('\n');
+                        src.push_str(*r.pick(&["", "  ", " "]));
+                    } else {
+                        src.push('\n');
+                        src.push_str(*r.pick(&["", "  "]));
+                        src.push(';');
+                        let sp = *r.pick(&[0usize, 1, 2]);
+                        src.push_str(&" ".repeat(sp));
+                        if sp > 0 {
+                            model_lines[i].insert(0, MTok::Space(sp > 1));
+                        }
+                    }
+                }
+                src.push_str(&text);
+            }
+            let lines = model_lines;
+            src.push_str(close);
+            if !ok || !seen.insert(src.clone()) {
+                uncovered += !ok as usize;
+                continue;
+            }
+            let out = match fmt(&src, &Cfg::default()) {
+                Ok(Ok(o)) => o,
+                _ => {
+                    unparse += 1;
+                    continue;
+                }
+            };
+            let out = out.strip_suffix('\n').unwrap_or(&out).to_string();
+            if out.contains('\n') {
+                uncovered += 1;
+                continue;
+            }
+            let coq_line = |l: &Vec<MTok>| format!("[{}]", l.iter().map(coq_tok).collect::<Vec<_>>().join("; "));
+            let joined = format!(
+                "(unsplit_lines {} (unsplit_first {} {}) [{}])",
+                ctx == 1,
+                first_end,
+                coq_line(&lines[0]),
+                lines[1..].iter().map(coq_line).collect::<Vec<_>>().join("; ")
+            );
+            let toks = match ctx {
+                2 => joined,
+                _ => format!("(TOpen {}%N :: {} ++ [TClose {}%N])", open.chars().next().unwrap() as u32, joined, close.chars().next().unwrap() as u32),
+            };
+            let relexed: Option<String> = relex_real(&out).map(|ts| format!("[{}]", ts.iter().map(coq_tok).collect::<Vec<_>>().join("; ")));
+            println!(
+                "{{\"toks\":{},\"src\":{},\"out\":{},\"pairs\":[],\"unsplit\":true,\"relex\":{}}}",
+                jstr(&toks),
+                jstr(&src),
+                jstr(&out),
+                relexed.map(|s| jstr(&s)).unwrap_or("null".into())
+            );
+            emitted += 1;
+            unsplit_cases += 1;
+            continue;
+        }
         let toks = if fi < fixed.len() {
             fi += 1;
             fixed[fi - 1].clone()
@@ -2530,7 +2716,7 @@ fn ctie(n: usize, seed: u64) {
         emitted += 1;
     }
     println!(
-        "{{\"summary\":true,\"emitted\":{emitted},\"uncovered\":{uncovered},\"unparseable\":{unparse},\"tries\":{tries},\"lengths\":{}}}",
+        "{{\"summary\":true,\"emitted\":{emitted},\"unsplit_cases\":{unsplit_cases},\"uncovered\":{uncovered},\"unparseable\":{unparse},\"tries\":{tries},\"lengths\":{}}}",
         serde_json::to_string(&lengths).unwrap()
     );
 }
